@@ -189,7 +189,7 @@ func classifyByName(call *ast.CallExpr, parents map[ast.Node]ast.Node) string {
 
 func checkC11(c *Ctx) {
 	r := c.R
-	r.Explain = "The statement quantifies over all byte strings; what a decoder does with a byte string is not visible in the shape of the code, and robustness inside protojson / encoding/json / protovalidate is a fuzzing question this family does not address. Four structural clauses are decided on the reconstructed emitted code. R11a: in the type-checked BindingMiddleware handler no go/cfg path writes an error response and afterwards dispatches (so a request whose body could not be decoded is never handed to the service), and inside the body binders every error-returning call is tested before a success return. R11b: every value handed to writeErrorWithHandler by the middleware has static type *ValidationError (400-typed, never 5xx). R11c: in every variant of every emitted decoder/encoder, the error of json.Unmarshal, hex/base64 DecodeString, time.Parse, strconv.Parse*, protojson/proto Unmarshal is propagated; sites that handle only the success arm are allowed only if listed in a reasoned exception table keyed by (emitter, callee). R11d: emitted Go contains no panic, no single-value type assertion, no constant index without a dominating length guard, and no use of a call's result before its error was tested (client: resp after `if err != nil`)."
+	r.Explain = "The statement quantifies over all byte strings; what a decoder does with a byte string is not visible in the shape of the code, and robustness inside protojson / encoding/json / protovalidate is a fuzzing question this family does not address. Five structural clauses are decided on the reconstructed emitted code. R11a: in the type-checked BindingMiddleware handler no go/cfg path writes an error response and afterwards dispatches (so a request whose body could not be decoded is never handed to the service), and inside the body binders every error-returning call is tested before a success return. R11b: every value handed to writeErrorWithHandler by the middleware has static type *ValidationError (400-typed, never 5xx). R11c: in every variant of every emitted decoder/encoder, the error of json.Unmarshal, hex/base64 DecodeString, time.Parse, strconv.Parse*, protojson/proto Unmarshal is propagated; sites that handle only the success arm are allowed only if listed in a reasoned exception table keyed by (emitter, callee). R11e: both body binders hand io.ReadAll the request body itself (or http.MaxBytesReader, which fails on over-long input), never a silently truncating reader. R11d: emitted Go contains no panic, no single-value type assertion, no constant index without a dominating length guard, and no use of a call's result before its error was tested (client: resp after `if err != nil`)."
 	r.Trusted = []string{"protojson.Unmarshal is strict about the token kinds it accepts per field type; its bytes decoder accepts the four base64 alphabets/padding forms"}
 	r.Rule("R11a", "no dispatch after an error response was written; body binders test every error before succeeding", 4)
 	r.Rule("R11b", "middleware failures are 400-typed values (*ValidationError)", 4)
@@ -205,6 +205,41 @@ func checkC11(c *Ctx) {
 	if lit == nil {
 		r.Unres("R11a", "BindingMiddleware handler literal", "", "not found")
 		return
+	}
+	// ---- R11e the body binders decode the whole body or fail: no silently truncating reader
+	r.Rule("R11e", "the body binders read the request body through a reader that reports over-long input as an error (r.Body or http.MaxBytesReader), never a silently truncating one", 2)
+	for _, name := range []string{"bindDataFromJSONRequest", "bindDataFromBinaryRequest"} {
+		bf := ep.Funcs[name]
+		if bf == nil {
+			r.Unres("R11e", name, "", "emitted function not found")
+			continue
+		}
+		n := 0
+		ast.Inspect(bf.Body, func(nd ast.Node) bool {
+			call, ok := nd.(*ast.CallExpr)
+			if !ok {
+				return true
+			}
+			cal := ep.CalleeOf(call)
+			if cal == nil || cal.Pkg() == nil || cal.Pkg().Path() != "io" || cal.Name() != "ReadAll" || len(call.Args) != 1 {
+				return true
+			}
+			n++
+			arg := ast.Unparen(call.Args[0])
+			src := types.ExprString(arg)
+			ok2 := src == "r.Body"
+			if c2, isCall := arg.(*ast.CallExpr); isCall {
+				if c2f := ep.CalleeOf(c2); c2f != nil && c2f.Pkg() != nil && c2f.Pkg().Path() == "net/http" && c2f.Name() == "MaxBytesReader" {
+					ok2 = true
+				}
+			}
+			r.Check(ok2, "R11e", name+": io.ReadAll reads the request body itself", ep.GenPos(call.Pos()),
+				fmt.Sprintf("%s reads the body through %s: input beyond the reader's limit is cut off without an error, so the prefix of an over-long body is decoded and (when it happens to be well-formed, e.g. length-delimited protobuf or a JSON document followed by padding) dispatched as if it were the request, instead of the request being refused", name, src))
+			return true
+		})
+		if n == 0 {
+			r.Bad("R11e", name+": reads the request body", ep.GenPos(bf.Pos()), "no io.ReadAll call found in the body binder", nil)
+		}
 	}
 	// ---- R11a
 	lf := func(call *ast.CallExpr) []string {
@@ -333,6 +368,8 @@ func checkC11(c *Ctx) {
 	crash := map[string]string{}
 	crashPos := map[string]string{}
 	nVariants, nFuncs := 0, 0
+	blank := map[string]string{}
+	nBlankOK := 0
 	for _, ri := range c.Roots() {
 		if (ri.Pkg != pkgHTTP && ri.Pkg != pkgClient) || !strings.HasSuffix(ri.Suffix, ".go") {
 			continue
@@ -409,6 +446,21 @@ func checkC11(c *Ctx) {
 								crashPos[k] = p
 							}
 						case *ast.AssignStmt:
+							// x, _ = CALL: the blank swallows an error unless CALL is one of the total encoders the emitters use
+							if len(x.Lhs) >= 2 && len(x.Rhs) == 1 {
+								if id, ok := x.Lhs[len(x.Lhs)-1].(*ast.Ident); ok && id.Name == "_" {
+									if call, ok := x.Rhs[0].(*ast.CallExpr); ok {
+										fun := holeFree(types.ExprString(call.Fun))
+										if fun != "json.Marshal" && !strings.HasSuffix(fun, ".Write") {
+											em, p := genFn(x.Pos())
+											k := pkgShort(ri.Pkg) + " " + em + " discards the error of " + fun
+											blank[k] = p
+										} else {
+											nBlankOK++
+										}
+									}
+								}
+							}
 							// v, err := CALL ; first use of v must follow the err test
 							if len(x.Lhs) == 2 && len(x.Rhs) == 1 && x.Tok == token.DEFINE {
 								if _, isCall := x.Rhs[0].(*ast.CallExpr); !isCall {
@@ -533,6 +585,10 @@ func checkC11(c *Ctx) {
 		sort.Strings(bad)
 		r.CheckD(len(bad) == 0, "R11c", k, a.pos, "a decoding error is swallowed in emitted code: "+strings.Join(bad, "; "), map[string]any{"uses": a.kinds, "excuse": swallowExcused[em+" "+callee]})
 	}
+	for _, k := range sortedKeys(blank) {
+		r.Bad("R11c", k, blank[k], "emitted code assigns the error result of a call that can fail to the blank identifier: the failure (for example an instant outside the representable range) is swallowed, the value becomes empty and the request or response is accepted without the field instead of being refused", nil)
+	}
+	r.OKd("R11c", "blank-assigned results in emitted Go come only from json.Marshal of total values and ResponseWriter.Write", "", map[string]any{"sites": nBlankOK, "other": len(blank)})
 	for _, k := range sortedKeys(crash) {
 		r.Bad("R11d", k, crashPos[k], crash[k], nil)
 	}
